@@ -17,7 +17,7 @@ SystemsOf(f) ==
     [] f = "kb" -> SysKBOf(A23, Vec(3, 0), Vec(3, 4), KVariantsPos(2))
 
 X0(n) == [j \in 1..n |-> IF j % 2 = 1 THEN 3 ELSE 1]     \* units 1/D
-Vs == {1, 6, 40}                                          \* requested totals (units 1/D)
+Vs == {0, 1, 6, 40}                                         \* requested totals (units 1/D)
 
 Init == pc = "init" /\ key = "" /\ out = <<>>
 Level1 == pc = "init" /\ \E f \in Families : key' = f /\ pc' = "fam" /\ out' = out
